@@ -42,6 +42,11 @@ pub struct Phase {
     /// points of the schedule, and checks its shape
     #[serde(default)]
     pub observations: u8,
+    /// reload order: this phase's appender is built while the previous one is
+    /// still alive, and the previous one keeps writing the records with even
+    /// `n` during this phase (two live appenders on one path, append mode)
+    #[serde(default)]
+    pub handover: bool,
 }
 
 #[derive(Clone, Debug, Serialize, Deserialize, PartialEq)]
@@ -91,6 +96,10 @@ pub fn gen_blob(rng: &mut Rng) -> Vec<u8> {
 
 pub fn generate_encfail(rng: &mut Rng, tier: Tier) -> Scn {
     let mut s = generate(rng, tier);
+    for ph in s.phases.iter_mut() {
+        // a failed encode leaves a fragment in the old appender's buffer: not combined with handover
+        ph.handover = false;
+    }
     if !matches!(s.encoder, EncKind::Chunk { .. }) {
         s.encoder = EncKind::Chunk { seed: rng.next_u64() };
     }
@@ -116,7 +125,7 @@ pub fn generate(rng: &mut Rng, tier: Tier) -> Scn {
     let mut tid_base = 0u16;
     for _ in 0..nphases {
         let nthreads = if big { rng.range(2, 4) } else { rng.weighted(&[2, 5, 3, 1]) as u64 + 1 } as usize;
-        let mut threads = vec![];
+        let mut threads: Vec<Vec<Rec>> = vec![];
         for t in 0..nthreads {
             let nrec = if big { rng.range(2, 6) } else { rng.weighted(&[1, 4, 4, 2, 1]) as u64 } as usize;
             let tid = tid_base + t as u16;
@@ -129,7 +138,19 @@ pub fn generate(rng: &mut Rng, tier: Tier) -> Scn {
             threads.push(v);
         }
         tid_base += nthreads as u16;
-        phases.push(Phase { append: rng.chance(3, 4), threads, observations: if rng.chance(1, 2) { rng.range(1, 5) as u8 } else { 0 } });
+        let append = rng.chance(3, 4);
+        let prev_append = phases.last().map(|p: &Phase| p.append).unwrap_or(false);
+        let handover = !phases.is_empty() && append && prev_append && rng.chance(1, 3);
+        if handover {
+            // two live appenders share no lock: only records that reach the file in one
+            // write(2) (smaller than the 1 KiB buffer) are covered by the property then
+            for t in threads.iter_mut() {
+                for r in t.iter_mut() {
+                    r.len = r.len.min(900);
+                }
+            }
+        }
+        phases.push(Phase { append, threads, observations: if rng.chance(1, 2) { rng.range(1, 5) as u8 } else { 0 }, handover });
     }
     Scn {
         pre: if rng.chance(1, 2) { Some(gen_blob(rng)) } else { None },
@@ -295,8 +316,13 @@ pub fn execute(scn: &Scn, opts: &ExecOpts) -> Outcome {
     let sink = Arc::new(Sink::default());
     let mut base: Vec<u8> = scn.pre.clone().unwrap_or_default();
     let mut any_switch_inside = false;
+    let mut previous: Option<Arc<FileAppender>> = None;
 
     'phases: for (pi, ph) in scn.phases.iter().enumerate() {
+        let handover = ph.handover && ph.append && previous.is_some() && scn.enc_fail.is_empty();
+        if !handover {
+            previous = None; // the old appender is closed before the new one opens
+        }
         let appender = match FileAppender::builder()
             .append(ph.append)
             .encoder(match &scn.encoder {
@@ -353,6 +379,7 @@ pub fn execute(scn: &Scn, opts: &ExecOpts) -> Outcome {
             let append_mode = ph.append;
             let in_cs = in_cs.clone();
             let enc_fail = scn.enc_fail.clone();
+            let old = if handover { previous.clone() } else { None };
             bodies.push(Box::new(move || {
                 for r in recs {
                     let id = RecId { tid, n: r.n };
@@ -368,7 +395,12 @@ pub fn execute(scn: &Scn, opts: &ExecOpts) -> Outcome {
                         }
                         *c += 1;
                     }
-                    let res = appender.append(
+                    let via_old = old.is_some() && r.n % 2 == 0;
+                    if via_old {
+                        sink.probe("appends_through_previous_appender", 1);
+                    }
+                    let target: &FileAppender = if via_old { old.as_ref().unwrap() } else { &appender };
+                    let res = target.append(
                         &log::Record::builder()
                             .level(log::Level::Info)
                             .target("sim")
@@ -445,6 +477,11 @@ pub fn execute(scn: &Scn, opts: &ExecOpts) -> Outcome {
         match fs::read(&path) {
             Ok(data) => {
                 check_file(&sink, &m, &data, None, true, ph.append);
+                previous = None; // the handed-over appender is closed now
+                let keep = scn.phases.get(pi + 1).map(|n| n.handover && n.append && ph.append).unwrap_or(false);
+                if keep {
+                    previous = Some(appender.clone());
+                }
                 drop(appender);
                 // dropping the appender must not change the file
                 match fs::read(&path) {
@@ -506,6 +543,11 @@ pub fn shrink(s: &Scn) -> Vec<Scn> {
         }
     }
     for (pi, p) in s.phases.iter().enumerate() {
+        if p.handover {
+            let mut c = s.clone();
+            c.phases[pi].handover = false;
+            out.push(c);
+        }
         if p.observations > 0 {
             let mut c = s.clone();
             c.phases[pi].observations = 0;
